@@ -146,7 +146,7 @@ theorem fault_rejected_core (O : Oracles) (w : World) (src : ClassSrc) (f : Faul
     have hbr : basesRequired w (inject (.optionalRequired n) src) = basesRequired w src := rfl
     simp only [optionalCheck, hbr]
     have : (inject (.optionalRequired n) src).optional.any
-        (fun f => (requiredOwn (inject (.optionalRequired n) src)).contains f
+        (fun f => (requiredEff w (inject (.optionalRequired n) src)).contains f
                   || (basesRequired w src).contains f) = true := by
       simp only [inject, List.any_cons, Bool.or_eq_true]
       left
@@ -156,7 +156,10 @@ theorem fault_rejected_core (O : Oracles) (w : World) (src : ClassSrc) (f : Faul
         cases hr : src.required with
         | none => simp [hr] at hs
         | some r =>
-          simp only [requiredOwn, hr] at hc ⊢
+          have hall : ∀ r', allFieldsOf w { src with optional := n :: src.optional, required := r' }
+              = allFieldsOf w src := fun _ => rfl
+          simp only [requiredEff, requiredOwn, hr] at hc ⊢
+          rw [hall]
           simpa using hc
       · right; exact h1
     rw [if_pos this]
